@@ -2,6 +2,7 @@
   Driver/Ops.lean — op dispatch of the driver.
 -/
 import SmoothModel
+import SmoothModel.Api
 
 open Scalar Lin
 
@@ -46,6 +47,59 @@ variable {α : Type} [Scalar α]
 def need (args : Array α) (n : Nat) : Except String Unit :=
   if args.size = n then .ok () else .error s!"arity: got {args.size} want {n}"
 
+def g0' (x : Array α) (i : Nat) : α := x.getD i (nat 0)
+
+/-- API paths beside the plain member functions (tools/dev/api_inventory.py, DESIGN 8.10): the free-function interface of
+    concepts/lie_group.hpp (`f…`), receivers that are const views (`…_cmap`), in-place operators through views or with
+    aliased operands.  Each is, by the text of lie_group_base.hpp / concepts/lie_group.hpp, the same value-level function
+    as a member op above; what differs is the C++ path that reaches it. -/
+@[specialize] def runApiOp (G : LieModel α) (op : String) (x : Array α) : Except String (Array α) := do
+  match op with
+  | "fcompose3" =>
+    need x (3 * G.rep)
+    return toArray (G.composition (memoV (G.composition (ofArray _ x) (ofArray _ x G.rep))) (ofArray _ x (2 * G.rep)))
+  | "compose_cmap" => need x (2 * G.rep); return toArray (G.composition (ofArray _ x) (ofArray _ x G.rep))
+  | "inverse_cmap" => need x G.rep; return toArray (G.inverse (ofArray _ x))
+  | "mulassign_mapself" | "mulassign_mapmap" => need x G.rep; return toArray (G.composition (ofArray _ x) (ofArray _ x))
+  | "random_elem" => need x G.rep; return #[]   -- a drawn element in the input slot: nothing to predict (audited by the check)
+  | "identity_free" => need x 0; return toArray G.identity
+  | "set_identity" | "set_identity_map" => need x G.rep; return toArray G.identity
+  | "consts" =>
+    need x 0
+    let c : α := if G.comm then nat 1 else nat 0
+    return #[nat G.rep, nat G.dof, nat G.dim, c, nat G.dof, nat G.dof, nat G.dof, c]
+  | "isapprox" | "fisapprox" =>
+    need x (2 * G.rep + 1)
+    return #[if G.isApprox (ofArray _ x) (ofArray _ x G.rep) (g0' x (2 * G.rep)) then nat 1 else nat 0]
+  | "isapprox_default" =>
+    -- member and free isApprox called WITHOUT eps; the last input word is the default the caller expects
+    -- (Eigen::NumTraits<Scalar>::dummy_precision()), outputs = (member, free function)
+    need x (2 * G.rep + 1)
+    let r : α := if G.isApprox (ofArray _ x) (ofArray _ x G.rep) (g0' x (2 * G.rep)) then nat 1 else nat 0
+    return #[r, r]
+  | "stream" => need x G.rep; return x
+  | "fexp" => need x G.dof; return toArray (G.exp (ofArray _ x))
+  | "flog" | "log_cmap" => need x G.rep; return toArray (G.log (ofArray _ x))
+  | "frplus" | "pluseq" | "pluseq_map" => need x (G.rep + G.dof); return toArray (G.rplus (ofArray _ x) (ofArray _ x G.rep))
+  | "frminus" | "rminus_cmap" => need x (2 * G.rep); return toArray (G.rminus (ofArray _ x) (ofArray _ x G.rep))
+  | "lplus" => need x (G.rep + G.dof); return toArray (G.lplus (ofArray _ x) (ofArray _ x G.rep))
+  | "lminus" => need x (2 * G.rep); return toArray (G.lminus (ofArray _ x) (ofArray _ x G.rep))
+  | "pluseq_log" =>
+    need x G.rep
+    let g : Vec α G.rep := ofArray _ x
+    return toArray (G.rplus g (memoV (G.log g)))
+  | "fAd" | "Ad_cmap" => need x G.rep; return matToArray (G.Ad (ofArray _ x))
+  | "fad" => need x G.dof; return matToArray (G.ad (ofArray _ x))
+  | "fdr_exp" => need x G.dof; return matToArray (G.dr_exp (ofArray _ x))
+  | "fdr_expinv" => need x G.dof; return matToArray (G.dr_expinv (ofArray _ x))
+  | "fdl_exp" => need x G.dof; return matToArray (G.dl_exp (ofArray _ x))
+  | "fdl_expinv" => need x G.dof; return matToArray (G.dl_expinv (ofArray _ x))
+  | "fd2r_exp" => need x G.dof; return matToArray (G.d2r_exp (ofArray _ x))
+  | "fd2r_expinv" => need x G.dof; return matToArray (G.d2r_expinv (ofArray _ x))
+  | "fd2l_exp" => need x G.dof; return matToArray (G.d2l_exp (ofArray _ x))
+  | "fd2l_expinv" => need x G.dof; return matToArray (G.d2l_expinv (ofArray _ x))
+  | _ => .error s!"unknown-op {op}"
+
 @[specialize] def runGroupOp (G : LieModel α) (op : String) (x : Array α) : Except String (Array α) := do
   match op with
   | "identity" => need x 0; return toArray G.identity
@@ -82,7 +136,7 @@ def need (args : Array α) (n : Nat) : Except String Unit :=
   | "d2l_expinv" => need x G.dof; return matToArray (G.d2l_expinv (ofArray _ x))
   | "rplus" => need x (G.rep + G.dof); return toArray (G.rplus (ofArray _ x) (ofArray _ x G.rep))
   | "rminus" => need x (2 * G.rep); return toArray (G.rminus (ofArray _ x) (ofArray _ x G.rep))
-  | _ => .error s!"unknown-op {op}"
+  | _ => runApiOp G op x
 
 def g0 (x : Array α) (i : Nat) : α := x.getD i (nat 0)
 
@@ -99,6 +153,8 @@ def g0 (x : Array α) (i : Nat) : α := x.getD i (nat 0)
   | "calc_S1inv", "SO3" => some (do need x 3; return matToArray (SO3.calc_S1inv (ofArray 3 x)))
   | "calculate_q", "SE3" => some (do need x 6; return matToArray (SE3.calculate_q (ofArray 3 x) (ofArray 3 x 3)))
   | "calculate_r", "GAL" => some (do need x 6; return matToArray (Galilei.calculate_r (ofArray 3 x) (ofArray 3 x 3)))
+  | "dr_action", "SO2" => some (do need x 4; return toArray (SO2.dr_action (ofArray 2 x) (ofArray 2 x 2)))
+  | "dr_action", "SE2" => some (do need x 6; return matToArray (SE2.dr_action (ofArray 4 x) (ofArray 2 x 4)))
   | "act", "SO2" => some (do need x 4; return toArray (SO2.act (ofArray 2 x) (ofArray 2 x 2)))
   | "act", "C1" => some (do need x 4; return toArray (C1.act (ofArray 2 x) (ofArray 2 x 2)))
   | "act", "SO3" => some (do need x 7; return toArray (SO3.act (ofArray 4 x) (ofArray 3 x 4)))
@@ -142,7 +198,9 @@ def runDerivGeneric (op grp : String) (x : Array α) : Option (Except String (Ar
   | _ => none
 
 @[specialize] def runOp (op grp : String) (x : Array α) : Except String (Array α) :=
-  match runSpecial op grp x with
+  -- actions through a const view (`Map<const G>` receiver) are the same value-level functions
+  let ops := if op == "act_cmap" then "act" else if op == "dr_action_cmap" then "dr_action" else op
+  match runSpecial ops grp x with
   | some r => r
   | none =>
   match runDerivGeneric op grp x with
